@@ -44,9 +44,9 @@ Distinct(s) == \A i, j \in DOMAIN s : i # j => s[i] # s[j]
 (* one (instance, height, earlier view, hash) by that view's leader and by distinct other      *)
 (* committee members together reaching quorum weight.                                          *)
 ProofSenders(p) == {p.ps[i].s : i \in DOMAIN p.ps}
-ValidProof(p, h, tv) ==
+\* everything but the instance: what the instance-agnostic validator function (ValidatePreparedProof) can decide
+ValidProofBody(p, h, tv) ==
   /\ p.has
-  /\ p.ppinst = 0 /\ p.pinst = 0
   /\ p.ppht = "PP" /\ p.pht = "P"
   /\ p.pph = h /\ p.ph = h
   /\ p.ppv < tv /\ p.pv = p.ppv
@@ -55,6 +55,7 @@ ValidProof(p, h, tv) ==
   /\ \A i \in DOMAIN p.ps : p.ps[i].sig /\ p.ps[i].s \in Members(h) /\ p.ps[i].s # p.pps
   /\ Distinct([i \in DOMAIN p.ps |-> p.ps[i].s])
   /\ IsQuorum(h, ProofSenders(p) \cup {p.pps})
+ValidProof(p, h, tv) == p.has /\ p.ppinst = 0 /\ p.pinst = 0 /\ ValidProofBody(p, h, tv)
 
 \* a vote (the signed part of a VIEW_CHANGE) is authentic for (h, v): valid signature of a committee
 \* member over a VIEW_CHANGE header for exactly this instance, height and view
